@@ -15,5 +15,23 @@ for c in "$@"; do
   e=$(date +%s)
   echo "SEEDED $name check $c: rc=$rc wall=$((e-s))s violations=$(grep -c '^VIOLATION' /tmp/seeded_${name}_$c.out) $(tail -1 /tmp/seeded_${name}_$c.out)"
   grep -A1 '^VIOLATION' /tmp/seeded_${name}_$c.out | grep signature | head -4
+  python3 - "$name" "$c" "$rc" /tmp/seeded_${name}_$c.out <<'PY'
+import json, sys, re
+name, c, rc, out = sys.argv[1:5]
+p = f'/verif/seeded/{name}/meta.json'
+try:
+    m = json.load(open(p))
+except Exception:
+    sys.exit(0)
+sigs = re.findall(r'^  signature: (.+)$', open(out, errors='replace').read(), re.M)[:4]
+if m.get('caught_as_built') is None:            # first trial of this seed decides "as built"
+    m['caught_as_built'] = (rc == '1')
+    m['first_signatures'] = sigs if rc == '1' else []
+if rc == '1' and c not in m.setdefault('caught_by', []):
+    m['caught_by'].append(c)
+if rc == '1' and not m.get('first_signatures'):
+    m['first_signatures'] = sigs
+json.dump(m, open(p, 'w'), indent=1)
+PY
 done
 rm -rf "$T" /verif/.build/mod__tmp_seeded_$name
